@@ -19,6 +19,9 @@ partition lemmas) and compares with the budget:
                     (epsilon, delta) - or a constant fraction of it, or 0
 Assumptions are recorded in the evidence (A-Q: unit-column-norm query matrices in Adaptive Grid; cdp_rho sound (C07);
 zCDP composition, eps-DP => eps^2/8-zCDP, parallel composition within one marginal).
+  unit-sensitivity    Adaptive Grid's aggregate block is masked by (I - Q1) applied FIRST to the data vector in every product that makes it up
+  iterator-reuse      a one-shot iterator that a loop has walked to the end is not walked again (a count taken from it afterwards is 0)
+  (typed-release also: a value computed from private quantities by a construction no sensitivity rule covers is private, not public)
 Not decided: floating point; that Q really has unit column norm.
 """
 import ast
